@@ -193,7 +193,7 @@ def main():
     n_total = 20000 if thorough else 1600
     n_py = 3000 if thorough else 240
     cases = [{"seed": seed(), "idx": i, "python": i < n_py} for i in range(n_total)]
-    res = pmap("vf.checks.c01:run_case", cases, cpu_budget=300)
+    res = pmap("vf.checks.c01:run_case", cases, cpu_budget=60)
     worst = 0.0
     for c, r_ in zip(cases, res):
         if r_["status"] != "ok":
